@@ -594,6 +594,38 @@ def _(c):
     ca.intersect(Grid("g", gnc, gnr, cellsize=csz, xllcorner=xll))
 
 
+@st.composite
+def fill_case(draw):
+    """Catchment whose filled area is larger than its area (hole, or a
+    dictionary with any two cell lists), intersected with a target grid of
+    the same or a finer resolution, filled on and off."""
+    nr, nc = draw(st.integers(1, 6)), draw(st.integers(1, 6))
+    n = nr * nc
+    area = draw(st.lists(st.integers(0, n - 1), min_size=0, max_size=n,
+                         unique=True))
+    extra = draw(st.lists(st.integers(0, n - 1), min_size=0, max_size=n,
+                          unique=True))
+    return {"shape": [nr, nc], "fd": [0] * n, "area": area,
+            "filled": sorted(set(area) | set(extra)),
+            "use_filled": draw(st.booleans()),
+            "ratio": draw(st.sampled_from([1., 1., 0.5, 0.25, 2., 1. / 3])),
+            "gshape": [draw(st.integers(1, 14)), draw(st.integers(1, 14))],
+            "goff": [draw(st.sampled_from([0., 0., -0.5, 0.25, 3.])),
+                     draw(st.sampled_from([0., 0., -0.5, 0.25, 3.]))]}
+
+
+@entry("Catchment.intersect-filled", fill_case())
+def _(c):
+    dic = {"name": "c", "idxcell_outlet": 0, "idxinlets": None,
+           "idxcells_area": c["area"], "idxcells_area_filled": c["filled"],
+           "flowdir": mkgrid(c).to_dict()}
+    ca = Catchment.from_dict(dic)
+    gnr, gnc = c["gshape"]
+    g = Grid("g", gnc, gnr, cellsize=c["ratio"], xllcorner=c["goff"][0],
+             yllcorner=c["goff"][1])
+    ca.intersect(g, filled=c["use_filled"])
+
+
 @entry("grid.voronoi", catch_case())
 def _(c):
     ca = delin(c)
